@@ -189,6 +189,9 @@ def real_groups(tier, seed):
     for vi, (isa, defs, tag) in enumerate(variants):
         calls = []
         sd = seed * 10 + vi
+        # quick tier: the full call set under sse2 / avx2 / avx512; under avx (its own 3x3 float and 8x8 double kernels) and
+        # under the two re-dispatch configurations only the kernels and the blocked nest
+        lean = tier == "quick" and (isa == "avx" or tag != "")
         for t in ("float", "double"):
             for (m, n) in LEAF[t]:
                 for place in (0, 1):
@@ -198,18 +201,25 @@ def real_groups(tier, seed):
                 shapes.add((rng.randint(1, 40), rng.randint(1, 40)))
             for (m, n) in sorted(shapes):
                 calls.append("run_treal<%s,%d,%d>(%du,%d);" % (t, m, n, sd, (m + n) % 2))
-            for api in (1, 2, 3, 6):
+            for api in ((6,) if lean else (1, 2, 3, 6)):
                 for (m, n) in [(3, 3), rng.choice(sorted(shapes))]:
                     calls.append("run_tapi<%s,%d,%d,%d>(%du);" % (t, m, n, api, sd))
+            if lean:
+                continue
             calls.append("run_tbatch<%s,%d,%d>(%du);" % (t, rng.randint(2, 4), rng.choice((2, 3, 4, 8)), sd))
-        for t in ("int32_t", "int64_t", "std::complex<double>", "std::complex<float>"):
+            for api in (7, 8, 9):
+                calls.append("run_tapi<%s,%d,%d,%d>(%du);" % (t, rng.randint(2, 12), rng.randint(2, 12), api, sd))
+            for kind in (0, 1):
+                calls.append("run_peval<%s,%d,%d,%d>(%du);" % (t, kind, rng.randint(2, 9), rng.randint(2, 9), sd))
+        for t in (() if lean else ("int32_t", "int64_t", "std::complex<double>", "std::complex<float>")):
             for _ in range(2 if tier == "quick" else 6):
                 calls.append("run_treal<%s,%d,%d>(%du,%d);" % (t, rng.randint(1, 20), rng.randint(1, 20), sd, rng.randint(0, 1)))
             calls.append("run_tapi<%s,%d,%d,%d>(%du);" % (t, rng.randint(1, 9), rng.randint(1, 9), rng.choice((1, 2, 3)), sd))
-        for t in ("std::complex<double>", "std::complex<float>"):
-            for api in (4, 5):
+        for t in (() if lean else ("std::complex<double>", "std::complex<float>")):
+            for api in (4, 5, 10, 11, 12):
                 calls.append("run_tapi<%s,%d,%d,%d>(%du);" % (t, rng.randint(1, 9), rng.randint(1, 9), api, sd))
-        if not tag:
+            calls.append("run_ctbatch<%s,%d,%d>(%du);" % (t, rng.randint(2, 3), rng.randint(2, 5), sd))
+        if not tag and not lean:
             for t in RTYPES:
                 for _ in range(2 if tier == "quick" else 8):
                     rank = rng.choice((2, 3, 3, 4))
@@ -293,7 +303,7 @@ def run_inner(tier, seed):
              "(or one metafunction dump) per (configuration, entry point, argument kind, permutation, shape); compared with the Lean model on the "
              "final placement of every source token, the order in which the source is read, the order of stores (transpose), read sets, chosen "
              "width and declared result extents; non-trivial = the permutation is not the identity / the matrix is not a vector",
-        nontrivial=nontrivial, per_tu=80, extra_cov={"box": box_summary(tier, seed)})
+        nontrivial=nontrivial, per_tu=100, extra_cov={"box": box_summary(tier, seed)})
 
 def sym_call_of(inp):
     d = symrun.kv(inp)
